@@ -1,5 +1,6 @@
 import PhyloModel.Props.C01
 import PhyloModel.Newick.Reject
+import PhyloModel.Newick.Balanced
 /-! # C02 — the Newick parser is total and only ever returns well-formed trees
 
 `NW.parse` is a fold of `NW.step` over the characters (hence terminates on every string).  Every partial
@@ -43,5 +44,22 @@ theorem normal_form {showLen : L → Label} (hc : Codec parseLen showLen) (cs : 
 /-- non-vacuity of `normal_form`'s hypotheses: a concrete text is accepted -/
 example : (match parse (fun (l : Label) => some l) ['(', 'A', ':', '1', ',', '(', 'B', ',', 'C', ')', 'D', '[', 'x', ']', ')', 'R', ';'] with
     | .done a => a.size == 5 | _ => false) = true := by decide
+
+/-- **unbalanced parentheses are rejected** (text without `"` and `[`, where every parenthesis is
+    structural): whatever is accepted has the form `mid ++ ';' :: post` with no `;` in `mid`, exactly as many
+    `(` as `)` in `mid`, and no prefix of `mid` closing more parentheses than it opened.  So text whose part
+    before the first `;` is unbalanced — or that has no `;` — is never accepted. -/
+theorem reject_unbalanced (cs : List Char) (hq : '"' ∉ cs) (hb : '[' ∉ cs) (a : Array (PNode L))
+    (h : parse parseLen cs = .done a) :
+    ∃ mid post, cs = mid ++ ';' :: post ∧ ';' ∉ mid ∧ mid.count '(' = mid.count ')' ∧
+      ∀ p, p <+: mid → p.count ')' ≤ p.count '(' :=
+  accepted_is_balanced parseLen cs hq hb a h
+
+/-- non-vacuity of the rejection: `((A,B);` and `(A,B));` are rejected, `((A,B));` is accepted -/
+example :
+    (match parse (fun (l : Label) => some l) "((A,B);".toList with | .done _ => true | _ => false) = false ∧
+    (match parse (fun (l : Label) => some l) "(A,B));".toList with | .done _ => true | _ => false) = false ∧
+    (match parse (fun (l : Label) => some l) "((A,B));".toList with | .done _ => true | _ => false) = true := by
+  decide
 
 end C02
